@@ -1,4 +1,4 @@
-\* repaired model: chain 0..12 (+1), Retained 3, one batch per prune, min-age on, 6 operations; exhaustive
+\* repaired model: chain 0..12 (+1), Retained 3, one batch per prune, min-age on, 8 operations; exhaustive: 342 777 distinct states (2 775 540 generated), 10 s on 8 workers
 CONSTANTS
   MaxH = 13
   InitH = 12
